@@ -12,11 +12,15 @@ PLAN = dict(
          "all zero}) with key kind, ephemeral-scalar kind and content kind rotating; every case runs the 9 encryption variants "
          "against a scripted k and the 5 decryption entry points on every distinct ciphertext, plus a wrong key; constructed corner "
          "cases (coordinates of C1 / of the shared point with a leading zero byte, scalars whose 1- or 2-byte mask is all zero, runs "
-         "of 2..130 such scalars in a row, structured k and d); tamper: one case = one valid ciphertext in one serialisation with "
+         "of 2..130 such scalars in a row, structured k and d; the table of searched ephemeral scalars for which x1, y1 or both have "
+         "1, 2 or 3 leading zero octets with the top bit of the next octet set / clear - 13 shapes on the SM2 curve, 14 on P-256, 8-10 "
+         "on P-224/P-384/P-521, first three scalars of every shape in quick, every entry re-validated with the reference arithmetic "
+         "at workload start - and scalars for which the shared point has two leading zero octets); tamper: one case = one valid ciphertext in one serialisation with "
          "every single-byte substitution (^01 ^80 =00 =ff), every truncation and two extensions; convert: every converter chain of "
-         "depth <= 3 from every layout; hostile: hand-made invalid inputs by family (plus, for the panic monitor only, invalid public "
+         "depth <= 3 from every layout, also for the scalars of the shape table and for points C1 with a tiny x (1..31 leading zero "
+         "octets, ciphertext made with the private key); hostile: hand-made invalid inputs by family (plus, for the panic monitor only, invalid public "
          "keys, option values outside the exported constants, key objects whose scalar is 0 or >= n); envelope: enveloped-key round "
-         "trips, reference-built envelopes, mutants; curves: round trips (9 lengths x {content, all-zero C2}), tamper sweeps of all 7 "
+         "trips, reference-built envelopes, mutants, envelopes made with the scalars of the shape table; curves: round trips (9 lengths x {content, all-zero C2}), tamper sweeps of all 7 "
          "serialisations and the hostile families on P-224, P-384 and P-521 keys; keyobj: one case = one history on one "
          "*sm2.PrivateKey: every ordered pair of uses (5 decryption entry points + ParseEnvelopedPrivateKey) with and without "
          "FromECPrivateKey on the same receiver in between, every constructor (8) x every first use followed by a damaged "
@@ -49,6 +53,8 @@ PLAN = dict(
         "library), checked against the key pairs of RFC 6979 A.2.4-A.2.7 before each run",
         "the key pair a *sm2.PrivateKey holds is the one its constructor or its last successful FromECPrivateKey call installed; "
         "a call that returns an error changes nothing; assigning to exported fields of a live object is not a way of re-keying",
+        "the shape table (harness/wl/c07/shapes.go) was found by an offline search with the library's own scalar multiplication; "
+        "it is only a list of candidates: every entry is recomputed with the reference arithmetic before use",
         "a decoder may refuse or take hybrid (06/07) C1 encodings and BER variants of the ASN.1 layout; only 04 / 02 / 03 and DER are demanded",
     ],
 )
@@ -60,7 +66,9 @@ CLAIM = dict(
          "1..200, 255, 256, 1000 the library encrypts "
          "with an ephemeral scalar chosen by the harness, so every ciphertext is compared byte for byte with an independent "
          "GB/T 32918.4 implementation and then decrypted through every entry point; ciphertexts the library did not make - "
-         "in particular those with an all-zero C2, with leading-zero coordinates, and for scalars whose mask is all zero (restart / "
+         "in particular those with an all-zero C2, with C1 coordinates of 1, 2, 3 (converters: up to 31) leading zero octets in x, in y and "
+         "in both (short DER INTEGERs, padded field elements; through every encryption variant, decryption entry point, converter "
+         "chain and the enveloped-key functions), and for scalars whose mask is all zero (restart / "
          "refusal, also in runs up to and beyond the library's retry limit) - are constructed by the reference and must be decrypted "
          "resp. refused. Every single-byte substitution and "
          "truncation of valid ciphertexts in every layout, off-curve / infinity / non-canonical C1, wrong keys and 0-3 byte inputs "
